@@ -192,7 +192,12 @@ let handle (ext : SS.t list -> SS.t option) line =
   | ["CL"; b] -> show_can false (m_can_payload_length !fbe (buf_of_hex b))
   (* example programs: XL udp fd datagram stale-fill ; XT udp tscf fd seq udpseq stale-fill frame... (canid:len:flags:data:ts) *)
   | ["XL"; udp; fd; d; fill] ->
-      let stale = List.init 1500 (fun _ -> n_of_hex fill) in
+      let stale =
+        if SS.length fill > 0 && fill.[0] = 'S' then begin
+          let given = buf_of_hex (SS.sub fill 1 (SS.length fill - 1)) in
+          let k = List.length given in
+          if k >= 1500 then List.filteri (fun i _ -> i < 1500) given else given @ List.init (1500 - k) (fun _ -> n_of_hex "fe")
+        end else List.init 1500 (fun _ -> n_of_hex fill) in
       let (st, frames) = m_can_listener !fbe (udp = "1") (fd = "1") (buf_of_hex d) stale in
       show_lstat st ^ SS.concat "" (List.map (fun f -> " " ^ hex_of_buf f) frames)
   | ["XH0"; fill] | ["XV0"; fill] -> x_pdu := List.init 1500 (fun _ -> n_of_hex fill); "OK"
